@@ -13,6 +13,9 @@ import (
 	"golang.org/x/tools/go/types/typeutil"
 )
 
+// globalDeadline: end of the whole run's wall-clock budget (zero: none).
+var globalDeadline time.Time
+
 type JobCfg struct {
 	StepLimit       int64             `json:"step_limit"`
 	MaxDepth        int               `json:"max_depth"`
@@ -330,6 +333,9 @@ func runJob(P *Program, job *Job) (res *JobResult) {
 	reached := map[string]bool{}
 	inconc := map[string]bool{}
 	deadline := start.Add(time.Duration(job.Cfg.TimeoutS) * time.Second)
+	if !globalDeadline.IsZero() && globalDeadline.Before(deadline) {
+		deadline = globalDeadline
+	}
 	seenViol := map[string]bool{}
 	epoch := 1
 	for len(work) > 0 {
